@@ -11,6 +11,7 @@ DECIDED = ("R1 every Data/Fin segment carries a sequence number obtained from th
 NOT_DECIDED = ("correctness of the reorder buffer's arithmetic beyond its shape, byte equality, eventual delivery on healthy links "
                "beyond R4, RST semantics.")
 DECIDED += "; R12 source / destination are never swapped on the TCP send path (send_loopback / send_message get (pair.local, pair.remote))"
+DECIDED += "; R13 a FIN is never answered with a RST (closed stream; read half dropped)"
 ASSUMPTIONS = ["tokio mpsc::channel(n) holds exactly n items", "each direction of a stream has one WriteHalf (one FIN)"]
 
 SEG = "turmoil::envelope::Segment"
